@@ -139,8 +139,37 @@ structure OState where
   notified : Bool := false
 deriving Repr, Inhabited
 
+inductive CtlKind where | select | sbo | dop | donr
+deriving DecidableEq, Repr
+
+inductive FreezeKind where | immediate | clear
+deriving DecidableEq, Repr
+
+inductive BAction where | processed | ignoredByConfig | badHeaders | unsupported
+deriving DecidableEq, Repr
+
+/-- callbacks into the application / information / control handler, in program order -/
+inductive Cb where
+  | beginFragment | endFragment
+  /-- `ControlSupport::select` / `operate` for one object, with the status the handler returned -/
+  | control (kind : CtlKind) (g v idx : Nat) (obj : List Nat) (status : Nat)
+  | writeTime (t : Nat)
+  | clearRestartIin
+  | coldRestart | warmRestart
+  | freezeAll (k : FreezeKind)
+  | freezeRange (a b : Nat) (k : FreezeKind)
+  | beginConfirm
+  | eventCleared (id : Nat)
+  | endConfirm (c1 c2 c3 : Nat)
+  | broadcast (func : Nat) (action : BAction)
+  | solWait (ecsn : Nat) | solTimeout (ecsn : Nat) | solConfirmed (ecsn : Nat) | solNewRequest
+  | solWrongSeq (ecsn seq : Nat) | unexpectedConfirm (uns : Bool) (seq : Nat)
+  | unsolWait (seq : Nat) | unsolTimeout (seq : Nat) (retry : Bool) | unsolConfirmed (seq : Nat)
+  | modelFuelExhausted
+deriving DecidableEq, Repr
+
 inductive OOut where
-  | cb (s : String)
+  | cb (c : Cb)
   | tx (dst : Nat) (bytes : List Nat)
   | txLink (ctrl dst src : Nat)
   | line (s : String)
@@ -154,7 +183,7 @@ def OState.init (cfg : OCfg) (evMax : Nat) : OState :=
 abbrev Acc := OState × List OOut
 
 def emit (a : Acc) (o : OOut) : Acc := (a.1, a.2 ++ [o])
-def emitCb (a : Acc) (s : String) : Acc := emit a (.cb s)
+def emitCb (a : Acc) (c : Cb) : Acc := emit a (.cb c)
 
 /-- overwrite `buf` from offset `off` with `data` (a write through a cursor; the caller made
     sure it fits) -/
@@ -274,12 +303,6 @@ def ctlText (g v : Nat) (idx : Nat) (obj : List Nat) : String :=
 /-- object with its status octet (the last one) replaced -/
 def withStatus (obj : List Nat) (st : Nat) : List Nat := obj.take (obj.length - 1) ++ [st]
 
-inductive CtlKind where | select | sbo | dop | donr
-deriving DecidableEq, Repr
-
-def CtlKind.name : CtlKind → String
-  | .select => "select" | .sbo => "operate sbo" | .dop => "operate do" | .donr => "operate donr"
-
 structure CtlRun where
   acc : Acc
   /-- octets written after the response header so far -/
@@ -313,8 +336,8 @@ def ctlHeader (kind : Option CtlKind) (fixedStatus : Nat) (maxctl : Option Nat) 
           if (match maxctl with | none => true | some m => r.num < m) then
             let (s', st) := nextStatus r.acc.1
             let acc : Acc := (s', r.acc.2)
-            let acc := if r.started then acc else emitCb acc "begin_fragment"
-            let acc := emitCb acc s!"{k.name} {ctlText h.group h.var (idxVal ix) obj} -> {st}"
+            let acc := if r.started then acc else emitCb acc .beginFragment
+            let acc := emitCb acc (.control k h.group h.var (idxVal ix) obj st)
             ({ r with acc := acc, started := true }, st, true)
           else (r, 8, false)
       let _ := called
@@ -339,7 +362,7 @@ def ctlAll (kind : Option CtlKind) (fixedStatus : Nat) (maxctl : Option Nat) (hs
 
 /-- `ControlTransaction::execute` epilogue -/
 def ctlFinish (r : CtlRun) : CtlRun :=
-  if r.started then { r with acc := emitCb r.acc "end_fragment" } else r
+  if r.started then { r with acc := emitCb r.acc .endFragment } else r
 
 
 /-- bits of a ranged bit-packed object (LSB first) -/
@@ -359,7 +382,7 @@ def handleWriteIin (a : Acc) (start stop : Nat) (data : List Nat) : Acc × Nat :
     let value := bitAt data i
     if index = 7 then
       if value then (p.1, p.2 ||| iin2ParamError)
-      else (emitCb ({ p.1.1 with restart := false }, p.1.2) "clear_restart_iin", p.2)
+      else (emitCb ({ p.1.1 with restart := false }, p.1.2) .clearRestartIin, p.2)
     else (p.1, p.2 ||| iin2ParamError)) (a, 0)
 
 /-- `handle_single_write_header` -/
@@ -367,7 +390,7 @@ def handleWriteHeader (a : Acc) (h : ObjHdr) : Acc × Nat :=
   if h.group = 80 ∧ h.var = 1 ∧ h.qual = 0x00 then handleWriteIin a h.a h.b h.data
   else if h.group = 50 ∧ h.var = 1 ∧ h.qual = 0x07 then
     if h.a = 1 then
-      (emitCb a s!"write_time {u48le h.data}", timeResultIin a.1)
+      (emitCb a (.writeTime (u48le h.data)), timeResultIin a.1)
     else (a, iin2ParamError)
   else if h.group = 50 ∧ h.var = 3 ∧ h.qual = 0x07 then
     if h.a ≠ 1 then (a, iin2ParamError) else
@@ -376,7 +399,7 @@ def handleWriteHeader (a : Acc) (h : ObjHdr) : Acc × Nat :=
     | some t0 =>
       let ts := u48le h.data + (a.1.now - t0)
       if ts > 281474976710655 then (a, iin2ParamError) else
-      (emitCb ({ a.1 with lastRecorded := none }, a.2) s!"write_time {ts}", timeResultIin a.1)
+      (emitCb ({ a.1 with lastRecorded := none }, a.2) (.writeTime ts), timeResultIin a.1)
   else (a, iin2NoFunc)
 
 /-- `handle_write`: the IIN2 of the LAST header wins (assignment, not OR) -/
@@ -384,12 +407,12 @@ def handleWrite (a : Acc) (seq : Nat) (hs : List ObjHdr) : Acc × Resp :=
   let (a, iin2) := hs.foldl (fun (p : Acc × Nat) h => let (a', i) := handleWriteHeader p.1 h; (a', i)) (a, 0)
   (a, emptySolicited seq iin2)
 
-def handleFreezeHeader (a : Acc) (kind : String) (h : ObjHdr) : Acc × Nat :=
-  if h.group = 20 ∧ h.var = 0 ∧ h.qual = 0x06 then (emitCb a s!"freeze all {kind}", 0)
-  else if h.group = 20 ∧ h.var = 0 ∧ (h.qual = 0x00 ∨ h.qual = 0x01) then (emitCb a s!"freeze {h.a}-{h.b} {kind}", 0)
+def handleFreezeHeader (a : Acc) (kind : FreezeKind) (h : ObjHdr) : Acc × Nat :=
+  if h.group = 20 ∧ h.var = 0 ∧ h.qual = 0x06 then (emitCb a (.freezeAll kind), 0)
+  else if h.group = 20 ∧ h.var = 0 ∧ (h.qual = 0x00 ∨ h.qual = 0x01) then (emitCb a (.freezeRange h.a h.b kind), 0)
   else (a, iin2NoFunc)
 
-def handleFreeze (a : Acc) (seq : Nat) (kind : String) (hs : List ObjHdr) : Acc × Resp :=
+def handleFreeze (a : Acc) (seq : Nat) (kind : FreezeKind) (hs : List ObjHdr) : Acc × Resp :=
   let (a, iin2) := hs.foldl (fun (p : Acc × Nat) h => let (a', i) := handleFreezeHeader p.1 kind h; (a', p.2 ||| i)) (a, 0)
   (a, emptySolicited seq iin2)
 
@@ -410,7 +433,7 @@ def countOfOne (a : Acc) (seq : Nat) (g v : Nat) (value : Nat) : Acc × Resp :=
   let bytes := [g, v, 0x07, 1, value % 256, value / 256 % 256]
   (({ a.1 with solBuf := writeAt a.1.solBuf 4 bytes }, a.2), singleResponse seq 0 10)
 
-def handleRestart (a : Acc) (seq : Nat) (name : String) : Acc × Resp :=
+def handleRestart (a : Acc) (seq : Nat) (name : Cb) : Acc × Resp :=
   let a := emitCb a name
   if a.1.script.restart = 0 then (a, emptySolicited seq iin2NoFunc)
   else if a.1.script.restart = 1 then countOfOne a seq 52 1 7
@@ -466,13 +489,13 @@ def handleNonRead (a : Acc) (func seq frameId : Nat) (hs : List ObjHdr) (raw : L
     if func = 2 then let (a, r) := handleWrite a seq hs; some (a, some r)
     else if func = 23 then let (a, r) := countOfOne a seq 52 2 a.1.script.delayMs; some (a, some r)
     else if func = 24 then some (({ a.1 with lastRecorded := some a.1.now }, a.2), some (emptySolicited seq 0))
-    else if func = 13 then let (a, r) := handleRestart a seq "cold_restart"; some (a, some r)
-    else if func = 14 then let (a, r) := handleRestart a seq "warm_restart"; some (a, some r)
+    else if func = 13 then let (a, r) := handleRestart a seq .coldRestart; some (a, some r)
+    else if func = 14 then let (a, r) := handleRestart a seq .warmRestart; some (a, some r)
     else if func = 3 ∨ func = 4 ∨ func = 5 ∨ func = 6 then handleControls a func seq frameId hs raw
-    else if func = 7 then let (a, r) := handleFreeze a seq "immediate" hs; some (a, some r)
-    else if func = 8 then let (a, _) := handleFreeze a seq "immediate" hs; some (a, none)
-    else if func = 9 then let (a, r) := handleFreeze a seq "clear" hs; some (a, some r)
-    else if func = 10 then let (a, _) := handleFreeze a seq "clear" hs; some (a, none)
+    else if func = 7 then let (a, r) := handleFreeze a seq .immediate hs; some (a, some r)
+    else if func = 8 then let (a, _) := handleFreeze a seq .immediate hs; some (a, none)
+    else if func = 9 then let (a, r) := handleFreeze a seq .clear hs; some (a, some r)
+    else if func = 10 then let (a, _) := handleFreeze a seq .clear hs; some (a, none)
     else if func = 11 then some (a, some (emptySolicited seq (if hs.isEmpty then 0 else iin2ParamError)))
     else if func = 12 then some (a, none)
     else if func = 20 then let (a, r) := handleEnableDisable a true seq hs; some (a, some r)
@@ -516,32 +539,32 @@ def classify (s : OState) (f : Frag) (ctrl : AppCtrl) (func : Nat) (objects : Ex
 def processBroadcast (a : Acc) (f : Frag) (mode : Nat) (ctrl : AppCtrl) (func : Nat)
     (objects : Except Nat (List ObjHdr)) (raw : List Nat) : Option Acc :=
   let a : Acc := ({ a.1 with lastBroadcast := some mode }, a.2)
-  if !a.1.cfg.broadcast then some (emitCb a s!"broadcast {func} ignored_by_config") else
+  if !a.1.cfg.broadcast then some (emitCb a (.broadcast func .ignoredByConfig)) else
   match objects with
-  | .error _ => some (emitCb a s!"broadcast {func} bad_headers")
+  | .error _ => some (emitCb a (.broadcast func .badHeaders))
   | .ok hs =>
     let seq := ctrl.seq
-    let done (a : Acc) : Option Acc := some (emitCb a s!"broadcast {func} processed")
+    let done (a : Acc) : Option Acc := some (emitCb a (.broadcast func .processed))
     if func = 2 then done (handleWrite a seq hs).1
     else if func = 6 then
       match handleControls a 6 seq f.id hs raw with
       | none => none
       | some (a, _) => done a
-    else if func = 8 then done (handleFreeze a seq "immediate" hs).1
-    else if func = 10 then done (handleFreeze a seq "clear" hs).1
+    else if func = 8 then done (handleFreeze a seq .immediate hs).1
+    else if func = 10 then done (handleFreeze a seq .clear hs).1
     else if func = 12 then done a
     else if func = 24 then done ({ a.1 with lastRecorded := some a.1.now }, a.2)
     else if func = 21 then done (handleEnableDisable a false seq hs).1
     else if func = 20 then done (handleEnableDisable a true seq hs).1
-    else some (emitCb a s!"broadcast {func} unsupported")
+    else some (emitCb a (.broadcast func .unsupported))
 
 /-- `clear_written_events` with the application callbacks -/
 def clearWrittenEvents (a : Acc) : Acc :=
-  let a := emitCb a "begin_confirm"
+  let a := emitCb a .beginConfirm
   let (db, ids, (c1, c2, c3)) := a.1.db.clearWritten
   let a : Acc := ({ a.1 with db := db }, a.2)
-  let a := ids.foldl (fun a id => emitCb a s!"event_cleared {id}") a
-  emitCb a s!"end_confirm {c1} {c2} {c3}"
+  let a := ids.foldl (fun a id => emitCb a (.eventCleared id)) a
+  emitCb a (.endConfirm c1 c2 c3)
 
 /-- `write_error_response` for a `TransportRequest::Error`; `none` = panic -/
 def writeErrorResponse (a : Acc) (dst : Nat) (seq : Option Nat) : Option Acc :=
@@ -579,7 +602,7 @@ def die (a : Acc) : StepRes := .panicked (emit ({ a.1 with mode := .dead }, a.2)
 
 /-- enter `sol_confirm_wait` -/
 def enterSolWait (a : Acc) (series : Series) (cont : SolCont) : Acc :=
-  let a := emitCb a s!"sol_wait {series.ecsn}"
+  let a := emitCb a (.solWait series.ecsn)
   ({ a.1 with mode := .solWait series (a.1.now + a.1.cfg.ctimeout) cont }, a.2)
 
 /-- `process_request_from_idle` + the writing part of `handle_one_request_from_idle`.
@@ -627,7 +650,7 @@ def startUnsolSeries (a : Acc) (r : Resp) (isNull : Bool) : Option Acc :=
   match writeUnsolicited a r with
   | none => none
   | some (a, r) =>
-    let a := emitCb a s!"unsol_wait {r.ctrl.seq}"
+    let a := emitCb a (.unsolWait r.ctrl.seq)
     let retries := if isNull then some 0 else a.1.cfg.retries
     some ({ a.1 with mode := .unsolWait r isNull retries (a.1.now + a.1.cfg.ctimeout) }, a.2)
 
@@ -728,7 +751,7 @@ def afterRequest (k : Acc → StepRes) (a : Acc) : StepRes :=
 
 /-- one pass of `run_idle_state` from the top, repeated while the wait returns immediately -/
 def runPass : Nat → Acc → StepRes
-  | 0, a => .blocked (emitCb a "model-fuel-exhausted")
+  | 0, a => .blocked (emitCb a .modelFuelExhausted)
   | fuel+1, a =>
     let a : Acc := ({ a.1 with notified := false }, a.2)
     let (s, p) := popRequest a.1
@@ -764,7 +787,7 @@ def abortSeries (a : Acc) (cont : SolCont) : StepRes :=
 def solWaitOnFragment (a : Acc) (series : Series) (deadline : Nat) (cont : SolCont) : StepRes :=
   let (s, p) := popRequest a.1
   let a : Acc := (s, a.2)
-  let newRequest (a : Acc) : StepRes := abortSeries (emitCb a "sol_new_request") cont   -- fragment retained
+  let newRequest (a : Acc) : StepRes := abortSeries (emitCb a .solNewRequest) cont   -- fragment retained
   match p with
   | .nothing => .blocked ({ a.1 with pending := none }, a.2)
   | .error _ _ => newRequest (onLinkActivity a.1, a.2)
@@ -777,11 +800,11 @@ def solWaitOnFragment (a : Acc) (series : Series) (deadline : Nat) (cont : SolCo
       let a := match resp with | some r => repeatSolicited a f.src r | none => a
       .blocked ({ a.1 with mode := .solWait series (a.1.now + a.1.cfg.ctimeout) cont }, a.2)
     | .unsolConfirm seq =>
-      .blocked (emitCb ({ a.1 with pending := none }, a.2) s!"unexpected_confirm 1 {seq}")
+      .blocked (emitCb ({ a.1 with pending := none }, a.2) (.unexpectedConfirm true seq))
     | .solConfirm seq =>
       let a : Acc := ({ a.1 with pending := none }, a.2)
-      if seq ≠ series.ecsn then .blocked (emitCb a s!"sol_wrong_seq {series.ecsn} {seq}") else
-      let a := emitCb a s!"sol_confirmed {series.ecsn}"
+      if seq ≠ series.ecsn then .blocked (emitCb a (.solWrongSeq series.ecsn seq)) else
+      let a := emitCb a (.solConfirmed series.ecsn)
       let a := clearWrittenEvents ({ a.1 with lastBroadcast := none }, a.2)
       if series.fin then resumeAfterSol a cont else
       let ecsn := seq4Next series.ecsn
@@ -795,7 +818,7 @@ def solWaitOnFragment (a : Acc) (series : Series) (deadline : Nat) (cont : SolCo
   where deadline_unused := deadline
 
 def solWaitTimeout (a : Acc) (series : Series) (cont : SolCont) : StepRes :=
-  abortSeries (emitCb a s!"sol_timeout {series.ecsn}") cont
+  abortSeries (emitCb a (.solTimeout series.ecsn)) cont
 
 /-- the unsolicited series ended -/
 def finishUnsol (a : Acc) (isNull confirmed : Bool) : StepRes :=
@@ -826,7 +849,7 @@ def unsolWaitOnFragment (a : Acc) (resp : Resp) (isNull : Bool) : StepRes :=
     match classify a.1 f ctrl func objects with
     | .unsolConfirm seq =>
       if seq = resp.ctrl.seq then
-        finishUnsol (emitCb ({ a.1 with lastBroadcast := none }, a.2) s!"unsol_confirmed {seq}") isNull true
+        finishUnsol (emitCb ({ a.1 with lastBroadcast := none }, a.2) (.unsolConfirmed seq)) isNull true
       else .blocked a
     | .solConfirm _ =>
       .blocked (if a.1.lastBroadcast = some 1 then ({ a.1 with lastBroadcast := none }, a.2) else a)
@@ -865,7 +888,7 @@ def unsolWaitTimeout (a : Acc) (resp : Resp) (isNull : Bool) (retries : Option N
     | some 0 => (some 0, false)
     | some (n+1) => (some n, true)
   let retry := if a.1.deferred.isSome then false else retry
-  let a := emitCb a s!"unsol_timeout {resp.ctrl.seq} {if retry then 1 else 0}"
+  let a := emitCb a (.unsolTimeout resp.ctrl.seq retry)
   if !retry then finishUnsol a isNull false else
   let a := repeatUnsolicited a resp
   .blocked ({ a.1 with mode := .unsolWait resp isNull retries' (a.1.now + a.1.cfg.ctimeout) }, a.2)
